@@ -65,6 +65,10 @@ def cases(draw, sound, small=False):
         c["uniqueness"] = draw(st.sampled_from([0.3, 0.5, 0.8]))
     else:
         c["driver"] = draw(st.sampled_from(["score_all_pairs", "score_all_pairs", "index", "do_index"]))
+    # search histories on one indexer object: a second pass (optionally after assigntorings again), or a second
+    # (minpks, tol) entry for indexing.index as in its default argument
+    if c["driver"] in ("score_all_pairs", "index") and ng * nrefl <= (400 if small else 1500):
+        c["passes"] = draw(st.sampled_from([1, 2, 2, "rings+2"]))
     return c
 
 
@@ -149,11 +153,14 @@ def check(case, rec=None):
     else:
         minpks = int(case["frac"] * nref)
     fails = []
-    where = "%s %s ng=%d nrefl=%d hkl_tol=%g cosine_tol=%g ds_tol=%g minpks=%s driver=%s" % (
-        case["lattice"], sym, ng, nref, tol, case["cosine_tol"], case["ds_tol"], minpks, case["driver"])
+    where = "%s %s ng=%d nrefl=%d hkl_tol=%g cosine_tol=%g ds_tol=%g minpks=%s driver=%s passes=%s" % (
+        case["lattice"], sym, ng, nref, tol, case["cosine_tol"], case["ds_tol"], minpks, case["driver"],
+        case.get("passes", 1))
     cImageD11.cimaged11_omp_set_num_threads(2)
     uc = unitcell.unitcell(cell, sym)
-    single_round = True
+    passes = case.get("passes", 1)
+    single_round = passes == 1
+    minpks_low = minpks
     if case["driver"] == "score_all_pairs":
         ok, ind = guard(indexing.indexer, unitcell=uc, gv=gv, wavelength=0.3, minpks=minpks, hkl_tol=tol,
                         cosine_tol=case["cosine_tol"], ds_tol=case["ds_tol"], max_grains=100,
@@ -162,6 +169,14 @@ def check(case, rec=None):
             ok, e = guard(ind.score_all_pairs)
             if not ok:
                 return [exc_failure("score_all_pairs", e)]
+            if passes != 1:
+                if passes == "rings+2":
+                    ok, e = guard(ind.assigntorings)
+                    if not ok:
+                        return [exc_failure("assigntorings (second time)", e)]
+                ok, e = guard(ind.score_all_pairs)
+                if not ok:
+                    return [exc_failure("score_all_pairs (second pass)", e)]
         else:
             return [exc_failure("indexer()", ind)]
     else:
@@ -172,7 +187,11 @@ def check(case, rec=None):
                 "wavelength": 0.3}
         cf.parameters = parameters.parameters(**pars)
         if case["driver"] == "index":
-            ok, ind = guard(indexing.index, cf, npk_tol=[(minpks, tol)], cosine_tol=abs(case["cosine_tol"]),
+            npk_tol = [(minpks, tol)]
+            if passes != 1:
+                minpks_low = max(3, (2 * minpks) // 3)
+                npk_tol.append((minpks_low, tol))
+            ok, ind = guard(indexing.index, cf, npk_tol=npk_tol, cosine_tol=abs(case["cosine_tol"]),
                             ds_tol=case["ds_tol"], max_grains=100, rmulmax=1000, log_level=10)
             if not ok:
                 return [exc_failure("indexing.index", ind)]
@@ -187,7 +206,7 @@ def check(case, rec=None):
             if not ok:
                 return [exc_failure("indexing.do_index", r)]
             grains, ind = r
-            minpks = ind.minpks
+            minpks = minpks_low = ind.minpks
             gv = np.ascontiguousarray(ind.gv)          # do_index keeps only peaks on the rings in foridx
             owner = None
             if len(grains) != len(ind.ubis):
@@ -218,9 +237,9 @@ def check(case, rec=None):
         lo, hi, hint = counts(u, gv, tol)
         if np.linalg.det(u) <= 0:
             fails.append(fail("handedness", "reported UBI %d is left handed; %s" % (k, where), inv="hand"))
-        if not hi.sum() > minpks:
+        if not hi.sum() > minpks_low:
             fails.append(fail("minpks", "reported UBI %d indexes %d peaks (at most %d at the boundary), minimum "
-                              "requested is > %s; stored score %s; %s" % (k, int(lo.sum()), int(hi.sum()), minpks,
+                              "requested is > %s; stored score %s; %s" % (k, int(lo.sum()), int(hi.sum()), minpks_low,
                                                                            ind.scores[k] if k < len(ind.scores) else None,
                                                                            where), inv="minpks"))
         sel = lo
@@ -281,7 +300,8 @@ def check(case, rec=None):
         spur = case.get("spurious", 0) if case["sound"] else 0
         nt = ng >= 2 or not case["lattice"].startswith("cubic") or spur > 0.2
         rec.case(case, nt, ["sound" if case["sound"] else "complete", "lat:" + case["lattice"],
-                            "driver:" + case["driver"]] + (["cosine_all_mode"] if case["cosine_tol"] < 0 else []))
+                            "driver:" + case["driver"]] + (["cosine_all_mode"] if case["cosine_tol"] < 0 else []) +
+                 (["second_pass"] if passes != 1 else []))
         rec.note("reported_ubis", len(ubis))
     return fails
 
